@@ -285,14 +285,17 @@ def search(ck, tu, tcs, maxsize, seed):
                                    "searchsorted(locs=%s, x=%r, %s) = %d" % (ll, xi, dtype, k),
                                    {"search": "searchsorted", "locs": ll, "x": xi, "dtype": str(dtype)})
     # cbrt / logabsdet
-    for x in [0.0, 1.0, -1.0, 8.0, -27.0, 1e-9, -1e-9, 1e9, -1e9] + [r.uniform(-100, 100) for _ in range(50)]:
+    # magnitudes over the whole floating-point range, both signs (the identity cbrt(x)**3 = x is relative, so tiny and huge
+    # arguments count as much as ordinary ones)
+    mags = [10.0 ** e_ for e_ in (-300, -200, -100, -60, -30, -20, -15, -13, -12, -11, -6, 6, 15, 30, 100, 200, 300)]
+    for x in [0.0, 1.0, -1.0, 8.0, -27.0, 1e-9, -1e-9, 1e9, -1e9] + mags + [-m_ for m_ in mags] + [r.uniform(-100, 100) for _ in range(50)]:
         t = torch.tensor([x], dtype=torch.float64)
         t0 = t.clone()
         c = tu.cbrt(t)
         ck.case(("s-cbrt", x), nontrivial=x != 0)
         mut("cbrt", [t0], [t], {"x": x})
         cube = float(c ** 3)
-        if x != 0.0 and not close(cube, x, tol=1e-12):
+        if x != 0.0 and (not math.isfinite(cube) or abs(cube - x) > 1e-12 * abs(x)):
             ck.finding("cbrt:cube-mismatch", "cbrt(%r)**3 = %r" % (x, cube), {"search": "cbrt", "x": x})
         if x == 0.0 and not (math.isnan(float(c)) or float(c) == 0.0):
             ck.finding("cbrt:zero", "cbrt(0) = %r" % float(c), {"search": "cbrt", "x": x})
